@@ -24,8 +24,14 @@ func sign(x int) int {
 // parts can be separated again.
 func VerifC18NonUnique() {
 	L := vnd.Param("L", 2)
-	s1, p1 := vnd.Bytes("s1", L), vnd.Bytes("p1", L)
-	s2, p2 := vnd.Bytes("s2", L), vnd.Bytes("p2", L)
+	s1, s2 := vnd.Bytes("s1", L), vnd.Bytes("s2", L)
+	var p1, p2 []byte
+	if vnd.Param("PEMPTY", 0) == 1 {
+		// longer secondaries with both primaries empty (keeps the path count down)
+		p1, p2 = []byte{}, []byte{}
+	} else {
+		p1, p2 = vnd.Bytes("p1", L), vnd.Bytes("p2", L)
+	}
 	k1 := encodeNonUniqueKey(p1, s1)
 	k2 := encodeNonUniqueKey(p2, s2)
 
